@@ -291,8 +291,15 @@ class EventAccessTask(Task):
                  detail=f"{mode}: returned {val!r}")
 
 
+# the wire part of the composition (bytes at the receiving handler = bytes the sender encoded) is C15's contract set on
+# fragmentation and reassembly, re-proved here under this property's id
+RELABEL = {"C15/": "C25/wire:"}
+
+
 def tasks(tier):
-    return [CodecRoundTripTask(), EventAccessTask()]
+    from contracts import dimse_frag as D
+    return [CodecRoundTripTask(), EventAccessTask(), D.GenTask(), D.EncodeTask("mem"), D.EncodeTask("mem-empty"), D.EncodeTask("none"),
+            D.EncodeTask("file"), D.DecodeStepTask()]
 
 
 def replay(rec):
